@@ -38,7 +38,7 @@ def check_energization(net, ac, opts):
     # (i) NaN exactly at in-service unsupplied buses (out-of-service buses are NaN as well)
     wrong_nan = (nan & isb) - dead
     wrong_finite = dead - nan
-    if wrong_nan:
+    if wrong_nan or (wrong_finite and not ac):
         m = None
         if not ac:
             # rundcpp has no failure detection: when the system it builds is singular it reports success with NaN angles.
@@ -47,9 +47,10 @@ def check_energization(net, ac, opts):
             n2 = copy.deepcopy(net)
             st, _ = pf.try_run(pp.runpp, n2)
             if st != "ok":
-                return [common.viol("rundcpp reports success but supplied buses %s have NaN va_degree (runpp on the same inputs: %s)" % (
-                    sorted(wrong_nan)[:8], st), mechanism="dc_silent_nan_when_ac_fails", options=opts)], tags | {"dc_silent_nan"}, True
-        viols.append(common.viol("supplied buses %s have NaN %s" % (sorted(wrong_nan)[:8], col), mechanism=m, options=opts))
+                return [common.viol("rundcpp reports success but supplied buses %s have NaN / dead buses %s have finite va_degree (runpp on the same inputs: %s)" % (
+                    sorted(wrong_nan)[:8], sorted(wrong_finite)[:8], st), mechanism="dc_silent_nan_when_ac_fails", options=opts)], tags | {"dc_silent_nan"}, True
+        if wrong_nan:
+            viols.append(common.viol("supplied buses %s have NaN %s" % (sorted(wrong_nan)[:8], col), mechanism=m, options=opts))
     if wrong_finite:
         viols.append(common.viol("unsupplied in-service buses %s have finite %s" % (sorted(wrong_finite)[:8], col), options=opts))
     oos_b = set(net.bus.index) - isb
@@ -138,7 +139,7 @@ def net_tags(net):
 
 def run_case(seed, tier, case_no):
     g = netgen.G(seed)
-    net = netgen.rnd_net(seed, "multi_island", {"dcline": 0.1})
+    net = netgen.rnd_net(seed, "multi_island", {"dcline": 0.1, "sw_at_oos_bus": True})
     ac = not g.B(0.2)
     opts = {}
     if ac:
